@@ -38,11 +38,11 @@ def _space(tier):
     full, small = _alphabets(tier)
     if tier == "quick":
         # I(1) x every return kind under the one-line summary, x the plain return under the other summaries (thorough: the full product)
-        yield from A.ir_space(full, small, 3, headers=A.HEADERS[:1])
+        yield from A.ir_space(full, small, 3, headers=A.HEADERS[:1], edges=True)
         yield from A.ir_space(full, [], 1, returns_1=A.RETURNS[1:2], headers=A.HEADERS[1:], alt_names=())
         yield from A.ir_space(A.sigma_param(docs=A.DOCS_BASIC), [], 1, returns_1=A.RETURNS[:2], names1=NAMES1[1:])
     else:
-        yield from A.ir_space(full, small, 3, headers=A.HEADERS, returns_n=A.RETURNS[:3])
+        yield from A.ir_space(full, small, 3, headers=A.HEADERS, returns_n=A.RETURNS[:3], edges=True)
         yield from A.ir_space(full, [], 1, returns_1=A.RETURNS[:2], names1=NAMES1[1:])
         # all ordered pairs over the full alphabet with plain descriptions
         plain = A.sigma_param(docs=A.DOCS_BASIC)
@@ -211,6 +211,8 @@ def run(case):
             v["sig"]["kwargs_name"] = any(nm.endswith("kwargs") for nm in ir["params"])
             _classes(v["sig"], ir) if "dot_in_default" not in v["sig"] else None
             v["sig"]["word_wrap_only"] = None
+            if A.partial_return(ir):
+                v["sig"]["partial_return"] = A.partial_return(ir)
             v["case"] = dict(key=case.get("key"), ir=case["ir"], cfg=cfg)
         viol.extend(vs)
     # collapse word_wrap: a signature is reported once per (sig); word_wrap noted only if it matters
